@@ -148,6 +148,19 @@ theorem push2 {nr : Nat} {t : Arr2 β} {rows : List (List β)} (h : TabOK nr 2 t
     simp only [he, false_and, if_false]
     rw [hv i hi' c hc3, List.getElem_append_left hi']
 
+/-- a completely written table is exactly `rows` -/
+theorem full_toRows {nr nc : Nat} {t : Arr2 β} {rows : List (List β)} (h : TabOK nr nc t rows)
+    (hfull : rows.length = nr) (hlen : ∀ r ∈ rows, r.length = nc) : t.toRows = some rows := by
+  obtain ⟨wf, hr, hc, hv⟩ := h
+  apply Arr2.toRows_eq
+  · rw [hfull, hr]
+  · intro i hi
+    have hl := hlen rows[i] (List.getElem_mem hi)
+    refine ⟨by rw [hl, hc], ?_⟩
+    intro j hj
+    rw [hv i hi j (by omega)]
+    simp [hj]
+
 /-- the slice `t[:rows.length]` is exactly `rows` -/
 theorem take_toRows {nr nc : Nat} {t : Arr2 β} {rows : List (List β)} (h : TabOK nr nc t rows)
     (hle : rows.length ≤ nr) (hlen : ∀ r ∈ rows, r.length = nc) :
